@@ -391,3 +391,53 @@ pub fn respell(t: Time, k: usize) -> Time {
     };
     got
 }
+
+/// A signer whose keys come in the usual RSA sizes (SoftSigner makes 2048-bit keys only; nothing in RFC 6492 / 8181 / 8183 says
+/// an identity key or a one-off key has that size).
+pub struct SizedSigner {
+    keys: std::sync::Mutex<Vec<std::sync::Arc<aws_lc_rs::rsa::KeyPair>>>,
+    pub one_off: std::sync::Mutex<std::sync::Arc<aws_lc_rs::rsa::KeyPair>>,
+    rng: aws_lc_rs::rand::SystemRandom,
+}
+impl SizedSigner {
+    pub fn new(one_off: aws_lc_rs::rsa::KeySize) -> Self {
+        SizedSigner { keys: Default::default(), one_off: std::sync::Mutex::new(std::sync::Arc::new(aws_lc_rs::rsa::KeyPair::generate(one_off).unwrap())),
+                      rng: aws_lc_rs::rand::SystemRandom::new() }
+    }
+    pub fn add_key(&self, size: aws_lc_rs::rsa::KeySize) -> usize {
+        let mut k = self.keys.lock().unwrap();
+        k.push(std::sync::Arc::new(aws_lc_rs::rsa::KeyPair::generate(size).unwrap()));
+        k.len() - 1
+    }
+    fn info(key: &aws_lc_rs::rsa::KeyPair) -> PublicKey {
+        use aws_lc_rs::signature::KeyPair as _;
+        let der = aws_lc_rs::encoding::AsDer::<aws_lc_rs::encoding::PublicKeyX509Der>::as_der(key.public_key()).unwrap();
+        PublicKey::decode(Bytes::copy_from_slice(der.as_ref())).unwrap()
+    }
+    fn raw_sign<Alg: SignatureAlgorithm>(&self, key: &aws_lc_rs::rsa::KeyPair, alg: Alg, data: &[u8]) -> Signature<Alg> {
+        let mut sig = vec![0; key.public_modulus_len()];
+        key.sign(&aws_lc_rs::signature::RSA_PKCS1_SHA256, &self.rng, data, &mut sig).unwrap();
+        Signature::new(alg, sig.into())
+    }
+}
+impl Signer for SizedSigner {
+    type KeyId = usize;
+    type Error = std::io::Error;
+    fn create_key(&self, _: PublicKeyFormat) -> Result<usize, Self::Error> { Ok(self.add_key(aws_lc_rs::rsa::KeySize::Rsa2048)) }
+    fn get_key_info(&self, key: &usize) -> Result<PublicKey, KeyError<Self::Error>> {
+        self.keys.lock().unwrap().get(*key).map(|k| Self::info(k)).ok_or(KeyError::KeyNotFound)
+    }
+    fn destroy_key(&self, _: &usize) -> Result<(), KeyError<Self::Error>> { Ok(()) }
+    fn sign<Alg: SignatureAlgorithm, D: AsRef<[u8]> + ?Sized>(&self, key: &usize, algorithm: Alg, data: &D) -> Result<Signature<Alg>, SigningError<Self::Error>> {
+        let key = self.keys.lock().unwrap().get(*key).cloned().ok_or(SigningError::KeyNotFound)?;
+        Ok(self.raw_sign(&key, algorithm, data.as_ref()))
+    }
+    fn sign_one_off<Alg: SignatureAlgorithm, D: AsRef<[u8]> + ?Sized>(&self, algorithm: Alg, data: &D) -> Result<(Signature<Alg>, PublicKey), Self::Error> {
+        let key = self.one_off.lock().unwrap().clone();
+        Ok((self.raw_sign(&key, algorithm, data.as_ref()), Self::info(&key)))
+    }
+    fn rand(&self, target: &mut [u8]) -> Result<(), Self::Error> {
+        use aws_lc_rs::rand::SecureRandom;
+        self.rng.fill(target).map_err(|_| std::io::Error::other("rng"))
+    }
+}
